@@ -24,11 +24,14 @@ def strip_data(d):
 
 
 def make_job(jid, src, entries, tracings=("verbose-all",), detailed=False, snapshots=False, plutus="v3"):
+    """src: source text of the single module `m`, or a list of {"name", "kind", "src"} in dependency order
+    (the entries always live in module `m`)."""
+    modules = src if isinstance(src, list) else [{"name": "m", "kind": "lib", "src": src}]
     return {
         "id": jid,
         "op": "compile_eval",
         "plutus": plutus,
-        "modules": [{"name": "m", "kind": "lib", "src": src}],
+        "modules": modules,
         "tracings": list(tracings),
         "detailed": detailed,
         "snapshots": snapshots,
